@@ -1389,6 +1389,9 @@ pub fn sched_subs_for(id: &str) -> Vec<Sub> {
                 3_000,
                 100_000,
             )
+        }, Sub {
+            max_lanes: 4,
+            ..sub(p_async::C15Many, 3, 24)
         }],
         "C16" => vec![
             Sub {
